@@ -384,13 +384,14 @@ def reject_tests(src, specs):
                 'with self._other_lock:\n            if timeout is _UNSET:\n                timeout = self.timeout\n            chunks = []'
         a = src.find('    def recv_size(')
         b = src.find('    def send(', a)
-        seg = src[a:b] if (a >= 0 and b > a and old in src[a:b]) else None
-        if seg is not None:
-            text = src[:a] + seg.replace(old, new) + src[b:]
-        elif src.count(old) >= 1:
+        if why in ('exception class with other bases', 'time rebound'):      # edits of the module, not of the method
+            if src.count(old) != 1:
+                continue
             text = src.replace(old, new, 1)
+        elif a >= 0 and b > a and old in src[a:b]:
+            text = src[:a] + src[a:b].replace(old, new) + src[b:]
         else:
-            continue                    # the source under test no longer has this text: the snippet does not apply
+            continue                    # the method under test no longer has this text: the snippet does not apply
         try:
             _, infos = T.translate_source(text, [dict(sp[0])], 'boltons.socketutils', 'snippet')
         except SyntaxError:
